@@ -85,7 +85,7 @@ func c20Body(t *testing.T, s *sim.Scn, o *sim.Outcome) {
 	for _, op := range s.Ops {
 		if op.K == "err" {
 			hh := startH + uint64(op.A)%uint64(max64(1, int64(lastContent-startH+1)))
-			da.ReadScript[hh] = append(da.ReadScript[hh], sim.ReadOutcome{Kind: []sim.ReadKind{sim.ReadListErr, sim.ReadChunkErr}[op.B%2]})
+			da.ReadScript[hh] = append(da.ReadScript[hh], sim.ReadOutcome{Kind: []sim.ReadKind{sim.ReadListErr, sim.ReadChunkErr}[op.B%2], Flavor: int(op.B>>1) % 4}) // flavours 0-3 (no hanging call: this caller sets no deadline)
 		}
 	}
 	da.SetCur(startH - 1)
@@ -219,7 +219,7 @@ func c20Gen(r *rand.Rand, tier string) *sim.Scn {
 		case x < 25:
 			s.Ops = append(s.Ops, sim.Op{K: "grow", A: r.Int64N(3)})
 		case x < 25+pErr:
-			s.Ops = append(s.Ops, sim.Op{K: "err", A: r.Int64N(8), B: r.Int64N(2)})
+			s.Ops = append(s.Ops, sim.Op{K: "err", A: r.Int64N(8), B: r.Int64N(8)})
 		case x < 45+pErr+pRestart/2:
 			s.Ops = append(s.Ops, sim.Op{K: "restart", A: r.Int64N(2)})
 		default:
